@@ -26,7 +26,16 @@ CFG = {
             "node's own resources are F3 and the page's own are F2, so a resolver that gives up on a long chain shows up as "
             "wrongly inherited resources, and as a spurious error under /Kids /Contents /Font /Encoding; the oracle dereferences "
             "with no bound other than the number of defined objects = cycle detection; 1845 graphs in quick, 3077 in thorough, "
-            "tagged tc where the real check_type accepts) + small family (root and one inner node with every kids list of "
+            "tagged tc where the real check_type accepts) + wrong-kind family (kinds.case = 41 minimal instances; at each of the "
+            "14 positions, behind 0-3 links, a value of every kind the converter does NOT expect there - it must be reported / "
+            "skipped without being descended into: null, boolean, integer, string, name, empty array, empty dictionary, stream; "
+            "the position's well-formed value wrapped in arrays 1-3 deep, mixed with good elements, through 1/2/3/8/40 array "
+            "objects each listing the next, and inside a dictionary that offers it under every key a converter looks for (direct "
+            "and as an object); CYCLES THROUGH CONTAINERS, which resolve_chain's followed-set does not guard: an array object that "
+            "lists itself (alone, after a good element, inside a direct array, inside a nested direct array), 2 and 3 arrays listing "
+            "each other, a tail of 1-3 array objects into a cycle of 1-2, array -> link -> link -> array, self-referential "
+            "dictionary, dictionary pair, dictionary <-> array; 39 values x 14 positions x 4 = 2184 graphs, tagged any; a "
+            "stack overflow of the harness process is recorded as crash:<rc> for that case = bad crash) + small family (root and one inner node with every kids list of "
             "length <=2 over {root,node,4,5} x 3 shapes of object 4 x 4 resource placements: direct / 1 link / 2 links; "
             "every 7th in quick, all 5292 in thorough) + random page trees (depth <=3, fan-out <=3, /Kids /Contents "
             "/Resources /Font /Encoding behind 0-3 links, fonts direct or indirect): 33% type-correct by construction "
@@ -35,8 +44,13 @@ CFG = {
             "shape: chain / tail into a cycle / dangling with 0-47, 64, 100 or 300 links), every generated /Kids /Contents "
             "/Resources /Font chain is long (4-44 links) one time in 20, "
             "33% with one single-rule damage (self-referential or 2-cyclic /Kids /Contents /Resources object, "
-            "dangling reference, missing/ill-typed key, defective font). Non-trivial = expected DOM has >=3 records "
-            "including an inner node, or the graph contains a top-level reference object (chain link or loop).",
+            "dangling reference, missing/ill-typed key, defective font); n/5 further random trees with one random wrong-kind "
+            "value (same 39 values) behind 0-3 links at a random one of 9 positions (/Kids, /Contents, /Contents element "
+            "between two good streams, /Resources, /Font, font entry, /Encoding, /FontDescriptor, extra kid entry). The case "
+            "decoder drops dictionary entries whose value is null, as the real dictionary parser does. "
+            "Non-trivial = expected DOM has >=3 records "
+            "including an inner node, or the graph contains a top-level reference object (chain link or loop), or an array "
+            "that lists an array (directly or through a reference to an array object).",
     "trusted_base": COMMON_TB + [
         "modelled, not verified: Rc identity as provenance (identifier the Rc was cloned from), BTreeMap/BTreeSet as sorted "
         "association lists, std::str::from_utf8 as the Unicode Table 3-7 recogniser utf8Valid",
